@@ -92,8 +92,6 @@ pub mod strings {
     use crate::standins::*;
     //@extract crates/jrsonnet-stdlib/src/strings.rs :: fn builtin_codepoint
     //@extract crates/jrsonnet-stdlib/src/strings.rs :: fn builtin_char
-    //@extract crates/jrsonnet-stdlib/src/strings.rs :: fn builtin_substr
-    //@extract crates/jrsonnet-stdlib/src/strings.rs :: fn builtin_find_substr
     //@extract crates/jrsonnet-stdlib/src/strings.rs :: fn builtin_parse_int
     //@extract crates/jrsonnet-stdlib/src/strings.rs :: fn builtin_parse_octal
     //@extract crates/jrsonnet-stdlib/src/strings.rs :: fn builtin_parse_hex
@@ -101,18 +99,43 @@ pub mod strings {
     //@extract crates/jrsonnet-stdlib/src/strings.rs :: fn builtin_trim
 }
 
+/// Functions that accumulate their result in a `Vec` / `String`: the container names are shadowed by
+/// fixed-capacity stand-ins (prelude/fixed.rs), the function text is unchanged.
+pub mod strings_acc {
+    use crate::error::{ErrorKind::*, Result};
+    use crate::prelude::fixed::{FixedString, FixedVec};
+    use crate::standins::{IStr, Val};
+    pub type Vec<T> = FixedVec<T, 8>;
+    pub type String = FixedString<16>;
+    #[derive(Clone, Debug)]
+    pub struct ArrValue(pub Vec<Val>);
+    impl ArrValue {
+        pub fn empty() -> Self {
+            ArrValue(Vec::new())
+        }
+    }
+    impl From<Vec<Val>> for ArrValue {
+        fn from(v: Vec<Val>) -> Self {
+            ArrValue(v)
+        }
+    }
+    //@extract crates/jrsonnet-stdlib/src/strings.rs :: fn builtin_substr
+    //@extract crates/jrsonnet-stdlib/src/strings.rs :: fn builtin_find_substr
+}
+
 /// The string arm of `IndexableVal::slice` (`str[a:b:c]`, `std.slice` on strings).
 pub mod slice {
     use crate::error::Result;
     use std::num::NonZeroU32;
     use std::ops::Deref;
-    /// owned-string stand-in for the interned result
+    pub type String = crate::prelude::fixed::FixedString<8>;
+    /// owned-string stand-in for the interned result (fixed capacity, see prelude/fixed.rs)
     #[derive(Clone, Debug, PartialEq, Eq)]
     pub struct IStr(pub String);
     impl Deref for IStr {
         type Target = str;
         fn deref(&self) -> &str {
-            &self.0
+            self.0.as_str()
         }
     }
     impl From<&str> for IStr {
